@@ -92,8 +92,10 @@ theorem sealHeld_length {c : Cfg} {e : Encoder} (hI : Inv c e) :
     exact heldP_length c n first _ hs.1
 
 /-- **`num_seal_words` is the number of words `seal` appends** -/
-theorem numSealWords_eq {c : Cfg} (hc : RValid c) {e : Encoder} (hI : Inv c e) :
+theorem numSealWords_eq {c : Cfg} (hc : RValid c) {e : Encoder} (hI : Inv c e)
+    (hf : Fits c e 0) :
     numSealWords c e = .ok (sealP c e).length := by
+  have hfl := hf.held_lt hc
   have hlen := sealHeld_length hI
   obtain ⟨_, hl, hr, hr2, hs⟩ := hI
   have hWS := hc.W_lt_S
@@ -110,26 +112,51 @@ theorem numSealWords_eq {c : Cfg} (hc : RValid c) {e : Encoder} (hI : Inv c e) :
     rw [narrow_top hc (show pointP c e < 2^c.S from Nat.mod_lt _ hT),
         narrow_top hc (Nat.mod_lt _ hT)]
     simp only [List.length_append, List.length_singleton, hlen]
-    congr 1
     unfold upperWordP pointWordP
     simp only [heldCount]
-    split <;> simp <;> omega
+    split
+    · rw [cadd_ok (by omega)]; congr 1; simp; omega
+    · rw [cadd_ok (by omega)]; congr 1; simp; omega
 
-theorem numWords_eq {c : Cfg} (hc : RValid c) {e : Encoder} (hI : Inv c e) :
+/-- at most `num_inverted + 2` words are appended -/
+theorem sealP_length_le {c : Cfg} {e : Encoder} (hI : Inv c e) :
+    (sealP c e).length ≤ e.situation.held + 2 := by
+  have hlen := sealHeld_length hI
+  unfold sealP
+  split
+  · simp
+  · simp only [List.length_append, List.length_singleton, hlen, heldCount]
+    split <;> simp
+
+theorem numWords_eq {c : Cfg} (hc : RValid c) {e : Encoder} (hI : Inv c e) (hf : Fits c e 0) :
     numWords c e = .ok (e.bulk ++ sealP c e).length := by
-  unfold numWords; rw [numSealWords_eq hc hI, List.length_append]
+  have hfl := hf.held_lt hc
+  have hle := sealP_length_le hI
+  unfold numWords
+  rw [numSealWords_eq hc hI hf, List.length_append]
+  simp only []
+  rw [cadd_ok (by omega)]
 
-theorem numBits_eq {c : Cfg} (hc : RValid c) {e : Encoder} (hI : Inv c e) :
+theorem numBits_eq {c : Cfg} (hc : RValid c) {e : Encoder} (hI : Inv c e) (hf : Fits c e 0) :
     numBits c e = .ok (c.W * (e.bulk ++ sealP c e).length) := by
-  unfold numBits; rw [numWords_eq hc hI]
+  have hle := sealP_length_le hI
+  unfold numBits
+  rw [numWords_eq hc hI hf]
+  simp only []
+  have h1 : c.W * (e.bulk ++ sealP c e).length
+      ≤ c.W * (e.bulk.length + e.situation.held + 0 + 2) := by
+    apply Nat.mul_le_mul_left
+    rw [List.length_append]; omega
+  unfold Fits at hf
+  rw [cmul_ok (by omega)]
 
 /-- `unseal ∘ seal = id` -/
-theorem unseal_seal {c : Cfg} (hc : RValid c) {e : Encoder} (hI : Inv c e) :
+theorem unseal_seal {c : Cfg} (hc : RValid c) {e : Encoder} (hI : Inv c e) (hf : Fits c e 0) :
     unsealEnc c { e with bulk := e.bulk ++ sealP c e } = .ok e := by
   have hI' : Inv c { e with bulk := e.bulk } := hI
   have hk : numSealWords c { e with bulk := e.bulk ++ sealP c e } = .ok (sealP c e).length := by
     have h1 : numSealWords c { e with bulk := e.bulk ++ sealP c e } = numSealWords c e := rfl
-    rw [h1, numSealWords_eq hc hI]
+    rw [h1, numSealWords_eq hc hI hf]
   unfold unsealEnc
   rw [hk]
   simp only [List.length_append, Nat.le_add_left, if_true, Nat.add_sub_cancel,
